@@ -190,6 +190,22 @@ def shard_js(shard, nshards, tier, seed, scratch):
                     seen.add((lang, 'one-query'))
                     failures.append({'leg': 'js', 'clause': lang + '-query-result-all-pairs-in-one-query', 'detail': {'text': t, 'pattern': p, 'got': r[0], 'expected': exp, 'rows_in_query': len(rows)}, 'case': {'kind': 'allpairs', 'lang': lang}})
         stats.bump('all-pairs-in-one-query', len(rows))
+        # every ASCII character (digits, punctuation, control characters) and a few others as a literal pattern character
+        rows = []
+        for c in [chr(i) for i in range(0, 128) if chr(i) not in '%_\n\r'] + ['\xa0', '\xe9', '\u0416', '\u20ac', '\x85']:   # single-line texts: no LF, CR, U+2028, U+2029
+            rows += [[c, c], ['a' + c + 'b', 'a' + c + 'b'], ['a' + c + 'b', 'a_b'], ['a' + c + 'b', '%' + c + '%'], ['a\x01b', 'a' + c + 'b'], ['a' + c, 'a' + c + c], [c + c, c + '%'], ['2024-01-05', '2024' + c + '%'], ['a1b', 'a' + c + 'b']]
+        for lang in ('js', 'py'):
+            res = drv.query_table('select like(a1, a2)', rows) if lang == 'js' else engine.run_table('select like(a1, a2)', [list(r) for r in rows], None, None, None)
+            if res['error'] is not None:
+                raise Violation(lang + '-error', {'text': 'every ASCII character', 'pattern': 'every ASCII character', 'error': res['error']})
+            for (t, p), r in zip(rows, res['out']):
+                exp = refmodel.ref_like(t, p)
+                stats.evaluations += 1
+                stats.nontrivial_counted += 1
+                if r[0] is not exp and (lang, 'ascii') not in seen:
+                    seen.add((lang, 'ascii'))
+                    failures.append({'leg': 'js', 'clause': lang + '-query-result-character-as-itself', 'detail': {'text': t, 'pattern': p, 'got': r[0], 'expected': exp}, 'case': {'kind': 'jspair' if lang == 'js' else 'pair', 'text': t, 'pattern': p}})
+        stats.bump('every-ascii-character', len(rows))
         # long texts / patterns (beyond any small-integer, token-count or length threshold): 16..20, 255..260, 1000 characters
         rows = []
         for n in (16, 17, 18, 33, 64, 65, 255, 256, 257, 258, 300, 1000):
